@@ -9,6 +9,47 @@ Import ListNotations.
 Local Close Scope Q_scope.
 Local Open Scope string_scope.
 
+(** * the name index after an operation that recomputes (or must keep) it:
+    obs fields  (tipidx ("name" ...))  sorted keys of the tip-name index,
+                (tipstate (("name" T|F id) ...))  ExistsTip / TipIndex for every tip of Tips(),
+                (bitsets (w ...))  width of the bitset of every branch, -1 when nil.
+    Clause: the tip-name index is exactly the tip set of the resulting tree, tip ids are the
+    ranks in the sorted names and every branch has a bitset of that width. *)
+Fixpoint rank_of (x : string) (l : list string) : option Z :=
+  match l with
+  | [] => None
+  | y :: r => if String.eqb x y then Some 0%Z
+              else match rank_of x r with Some k => Some (k + 1)%Z | None => None end
+  end.
+
+Definition dec_tipstate (s : sexp) : option (string * bool * Z) :=
+  match s with
+  | SList [n; e; i] => nm <- dec_string n ;; ex <- dec_bool e ;; id <- dec_Z i ;; Some (nm, ex, id)
+  | _ => None
+  end.
+
+Definition index_ok (g : utree) (o : sexp) : option string :=
+  match get_strings "tipidx" o,
+        (x <- get "tipstate" o ;; dec_list dec_tipstate x),
+        (x <- get "bitsets" o ;; dec_list dec_Z x) with
+  | Some idx, Some st, Some bs =>
+    let tn := ssort (leaves g) in
+    if negb (list_eqb String.eqb idx tn)
+    then Some "the tip-name index is not the tip set of the resulting tree"
+    else if negb (list_eqb String.eqb (ssort (map (fun x => fst (fst x)) st)) tn)
+    then Some "Tips() is not the tip set of the resulting tree"
+    else if negb (forallb (fun x => snd (fst x) &&
+                                    match rank_of (fst (fst x)) tn with
+                                    | Some r => Z.eqb (snd x) r
+                                    | None => false
+                                    end) st)
+    then Some "a tip is not found through the name index, or its id is not its rank in the sorted tip names"
+    else if negb (forallb (fun w => Z.eqb w (Z.of_nat (length tn))) bs)
+    then Some "a branch has no bitset of the width of the tip index"
+    else None
+  | _, _, _ => Some "no index state in the observation"
+  end.
+
 Definition judge_basic (op : string) (c o : sexp) : verdict :=
   match get_tree "tree" c, get_string "err" o with
   | Some t, Some gerr =>
@@ -31,7 +72,8 @@ Definition judge_basic (op : string) (c o : sexp) : verdict :=
       else match get_tree "tree" o with
            | None => VBad "no tree in observation"
            | Some g =>
-             match first_some [audit_ok o; same_tree_obs t g] with
+             match first_some [audit_ok o; same_tree_obs t g;
+                               if String.eqb op "reroot" || String.eqb op "unroot" then index_ok g o else None] with
              | Some m => VOracle m
              | None =>
                if utree_eqb t' g then VOk (negb (utree_eqb t g)) op
@@ -232,7 +274,7 @@ Definition judge_root (op : string) (c o : sexp) : verdict :=
                    | Some m => VOracle m
                    | None =>
                      if negb (utree_eqb t' g) then VCorr ("model: " ++ show_utree t')
-                     else match oracle_ok g with
+                     else match first_some [oracle_ok g; index_ok g o] with
                           | Some m => VOracle m
                           | None => VOk true tag
                           end
